@@ -29,8 +29,8 @@ def lock_aliases(prog, clsname):
 
 
 class LockFlow(object):
-    def __init__(self, prog, finfo, aliases=None, env=None, entry_held=()):
-        self.fl = Flow(prog, finfo, env=env, implicit=True)
+    def __init__(self, prog, finfo, aliases=None, env=None, entry_held=(), implicit=True):
+        self.fl = Flow(prog, finfo, env=env, implicit=implicit)
         self.cfg = self.fl.cfg
         self.aliases = dict(aliases or {})
         if finfo.cls is not None and aliases is None:
